@@ -4,6 +4,7 @@ import io
 from hypothesis import strategies as st
 
 from vlib import harness, refvbs
+from vlib.strat import uniform
 from vlib.harness import exc_sig
 from cardutil import mciipm, iso8583
 from props import c03
@@ -97,7 +98,7 @@ def sweep_file(ctx, records, blocked, ipm_encoding, spec):
 
 
 LEN = st.one_of(st.sampled_from([1, 2, 3, 4, 5, 1000, 1004, 1007, 1008, 1009, 1011, 1012, 1013, 1016, 2020, 2024, 2028]),
-                st.integers(1, 80), st.integers(1, 2100))
+                uniform(1, 80), uniform(1, 2100))
 REC = st.tuples(LEN, st.sampled_from(['pos', 'zero', 'fill', 'prefix', 'rand']), st.binary(min_size=1, max_size=7))
 
 
@@ -157,7 +158,7 @@ def ipm_files(ctx, n, max_total):
         ctx.labels['files:ipm-1014' if blocked else 'files:ipm-plain'] += 1
         if len(ctx.samples) < 5:
             ctx.sample({'form': 'ipm-1014' if blocked else 'ipm', 'encoding': enc, 'record_lengths': [len(r) for r in records], 'cuts': f'every offset 0..{size}'})
-    harness.drive(ctx, st.tuples(st.lists(st.integers(0, 5000), min_size=1, max_size=8), st.booleans(),
+    harness.drive(ctx, st.tuples(st.lists(uniform(0, 5000), min_size=1, max_size=8), st.booleans(),
                                  st.sampled_from(ENCODINGS)), body, n, salt='ipm-files')
     ctx.enumerated('every truncation offset 0..len(file) of each generated IPM file')
 
